@@ -263,11 +263,11 @@ fn fill_banks(
         if let (Some(size), Some(offset)) =
             (bankdef.size, bankdef.output_offset)
         {
-            let highest_position = offset + size - 1;
+            let end_position = offset + size;
 
-            if output.len() < highest_position
+            if output.len() < end_position
             {
-                output.write_bit(highest_position, false);
+                output.write_bit(end_position - 1, false);
             }
         }
     }
